@@ -325,6 +325,10 @@ Move* generate_pinned_pawn_moves(Square from, Ray ray, const Position& pos,
     const Rank rank7 = side == WHITE ? RANK_7 : RANK_2;
     const Bitboard rank2_bb =
         side == WHITE ? RANKS_BB[RANK_2] : RANKS_BB[RANK_7];
+    // a pawn pinned on a diagonal may still capture en passant along that diagonal
+    const Bitboard enpassant_bb = pos.enpassant_square() != NO_SQUARE
+                                      ? square_bb(pos.enpassant_square())
+                                      : 0ULL;
 
     if (rank(from) == rank7)
     {
@@ -366,7 +370,7 @@ Move* generate_pinned_pawn_moves(Square from, Ray ray, const Position& pos,
         switch (ray & 3)
         {
         case 0:
-            if (shift<UPLEFT>(square_bb(from)) & pos.pieces(!side))
+            if (shift<UPLEFT>(square_bb(from)) & (pos.pieces(!side) | enpassant_bb))
                 *list++ = create_move(from, Square(static_cast<uint64_t>(from) + static_cast<uint64_t>(UPLEFT)));
             break;
         case 1:
@@ -378,7 +382,7 @@ Move* generate_pinned_pawn_moves(Square from, Ray ray, const Position& pos,
             }
             break;
         case 2:
-            if (shift<UPRIGHT>(square_bb(from)) & pos.pieces(!side))
+            if (shift<UPRIGHT>(square_bb(from)) & (pos.pieces(!side) | enpassant_bb))
                 *list++ = create_move(from, Square(static_cast<uint64_t>(from) + static_cast<uint64_t>(UPRIGHT)));
             break;
         }
